@@ -18,6 +18,7 @@ import dataclasses
 import enum
 import json
 import math
+import os
 import time
 from datetime import datetime
 
@@ -690,6 +691,56 @@ def run_workflow_case(impl: Impl, col: Collector, label, spec, valid):
     return wf if stored else None
 
 
+def run_add_stage_case(impl: Impl, col: Collector, label, spec, extra, txn):
+    """a stage that is not yet stored goes through the INSERT branch of store_stage (add_stage / txn.store_stage)"""
+    replay = {"kind": "add_stage", "label": label, "spec": spec, "extra": extra, "txn": txn}
+    try:
+        wf = impl.build_workflow(spec)
+        impl.store.store(wf)
+        st = impl.build_stage(extra)
+        st.execution = wf
+    except Exception:
+        impl.rollback()
+        return
+    s_w = snap(st, STAGE_SKIP, {"execution_id": wf.id})
+    t_w = [snap(t, TASK_SKIP, {"stage_id": st.id}) for t in st.tasks]
+    try:
+        if txn:
+            with impl.store.transaction(impl.queue) as tx:
+                tx.store_stage(st)
+        else:
+            impl.store.add_stage(st)
+        s_o = impl.store.retrieve_stage(st.id)
+    except Exception as e:
+        impl.rollback()
+        col.violate(f"adding a valid new stage raised: {e!r}", "add_stage.raises", replay)
+        return
+    try:
+        P = Printer()
+        col.add("stage", f"(true, {P.rec(s_w)}, {P.opt_rec(snap(s_o, STAGE_SKIP))})", {"label": label, "via": "add_stage-txn" if txn else "add_stage"})
+        Pt = Printer()
+        col.add("tasks", f"(true, true, {Pt.recs(t_w)}, {Pt.opt_recs([snap(t, TASK_SKIP) for t in s_o.tasks])})", {"label": label, "via": "add_stage"})
+    except Unprintable:
+        col.unprintable += 1
+    for f in STAGE_LISTED:
+        if not same(s_w[f], getattr(s_o, f)):
+            col.violate(f"StageExecution.{f} written {short(s_w[f])} read back {short(getattr(s_o, f))} (new stage saved with "
+                        f"{'txn.store_stage' if txn else 'add_stage'})", f"stage.{f}", replay)
+    if [t.id for t in s_o.tasks] != [t["id"] for t in t_w]:
+        col.violate("tasks of a newly added stage read back in a different order", "tasks.order", replay)
+    else:
+        for tw, to in zip(t_w, s_o.tasks):
+            for f in TASK_LISTED:
+                if not same(tw[f], getattr(to, f)):
+                    col.violate(f"TaskExecution.{f} written {short(tw[f])} read back {short(getattr(to, f))} (new stage)", f"task.{f}", replay)
+    # the stages stored before are untouched
+    for other in wf.stages:
+        o_after = impl.store.retrieve_stage(other.id)
+        for f in STAGE_LISTED:
+            if not same(getattr(other, f), getattr(o_after, f)):
+                col.violate(f"adding a stage altered {f} of another stage", f"update.other.{f}", replay)
+
+
 def apply_mods(impl: Impl, stage, mods):
     for f, v in mods["fields"].items():
         setattr(stage, f, impl.dec(v))
@@ -910,7 +961,13 @@ def generate_and_run(rng, tier, col: Collector, scale=1.0):
                 mods["path"] |= 1                       # a wrong expected_phase needs a path that passes one
             run_update_case(impl, col, f"update-refused-{i}", spec, 0, mods, stale=i % 2 == 0, bad_phase=i % 2 == 1)
             col.count("update_refused_cases")
-        # messages: every registered class, both paths
+        for i in range(max(6, n_upd // 6)):
+            spec = g.workflow(nstages=rng.choice([0, 1, 2]))
+            extra = g.stage(50 + i, [x["f"]["ref_id"] for x in spec["stages"]])
+            run_add_stage_case(impl, col, f"add-stage-{i}", spec, extra, txn=i % 2 == 1)
+            col.count("add_stage_cases")
+            col.nontrivial += 1
+        # messages: every concrete class, both paths
         for cls_name, cls in impl.concrete_message_classes():
             for j in range(n_msg_per_class):
                 spec = g.message(cls_name, cls)
@@ -959,7 +1016,7 @@ def evaluate_in_coq(col: Collector, res: RunResult):
 
     def one(kind):
         fn, ty, cases = jobs[kind]
-        return lib.coq_failing_indices(req, fn, ty, cases, f"c19_{kind}", shard=40 if kind in ("workflow", "stage", "update") else 80, timeout=900)
+        return lib.coq_failing_indices(req, fn, ty, cases, f"c19_{kind}_{os.getpid()}", shard=40 if kind in ("workflow", "stage", "update") else 80, timeout=900)
     with ThreadPoolExecutor(max_workers=len(jobs) or 1) as ex:
         results = dict(zip(jobs, ex.map(one, jobs)))
     for kind, (failing, err) in results.items():
@@ -1022,6 +1079,8 @@ def replay(obj) -> bool:
                             bad_phase=r.get("bad_phase", False))
         elif r["kind"] == "message":
             run_message_case(impl, col, r["spec"])
+        elif r["kind"] == "add_stage":
+            run_add_stage_case(impl, col, r.get("label", "replay"), r["spec"], r["extra"], r["txn"])
         else:
             raise ValueError(r["kind"])
     finally:
